@@ -2,7 +2,7 @@
    (Gen/KernelsGen.v, harness/pytrans.py) equal the hand-written model definitions the property theorems
    are about, for every Scalar instance.  Re-checked at every run against what the code says now. *)
 From Coq Require Import ZArith List.
-From GM Require Import Base.Res Base.Scalar Base.Vec Model.Aux Model.MC Model.Pbc Gen.KernelsGen Gen.SrcConsts.
+From GM Require Import Base.Res Base.Scalar Base.Vec Model.Aux Model.MC Model.Pbc Model.ExchangeMap Gen.KernelsGen Gen.SrcConsts.
 Import ListNotations.
 Local Open Scope scalar_scope.
 
@@ -64,5 +64,14 @@ Proof.
   destruct box as [bv|]; [|reflexivity].
   destruct inv; destruct (minv bv); reflexivity.
 Qed.
+
+(* ExchangeMap._proyect_point / _restore_point on the frame stored for the anchor *)
+Lemma proyect_point_gen_eq (F : frame T) (p : V3 T) (s : T) :
+  proyect_point_gen (forig F) (fmat F) p s = Ok (project F p s).
+Proof. reflexivity. Qed.
+
+Lemma restore_point_gen_eq (F : frame T) (c : V3 T) :
+  restore_point_gen c (forig F) (fmat F) = Ok (restore F c).
+Proof. reflexivity. Qed.
 
 End Eq.
